@@ -183,10 +183,24 @@ class OldRewriter(ast.NodeTransformer):
         return self.generic_visit(node)
 
 
+class _DropTriggers(ast.NodeTransformer):
+    """`trigger=` arguments of forall/exists are hints for the SMT back end; they mention the bound variable outside the
+    lambda and cannot be evaluated"""
+    def visit_Call(self, node):
+        self.generic_visit(node)
+        if isinstance(node.func, ast.Name) and node.func.id in ("forall", "exists"):
+            node.keywords = [k for k in node.keywords if k.arg != "trigger"]
+        return node
+
+
 def compile_expr(node):
-    e = ast.Expression(copy.deepcopy(node))
+    e = ast.Expression(_DropTriggers().visit(copy.deepcopy(node)))
     ast.fix_missing_locations(e)
     return compile(e, "<contract>", "eval")
+
+
+class SpecError(Exception):
+    pass
 
 
 class ConcreteContract:
@@ -240,6 +254,8 @@ class ConcreteContract:
         for k, code in enumerate(self.ensures):
             try:
                 ok = eval(code, e)
+            except NameError as ex:  # a defect of the contract text, not of the code under test
+                raise SpecError(f"postcondition {k}: {ex!r}")
             except Exception as ex:  # a clause that cannot be evaluated on this outcome counts as failed
                 return k, f"clause raised {ex!r}"
             if not ok:
@@ -334,7 +350,10 @@ def run_case(fn, cc, inputs, consts, timeout_s=5, is_generator=False, mode="func
             return {"outcome": "violation", "kind": "exception", "exception": repr(ex)[:300], "detail": why,
                     "inputs": inputs, "consts": consts}
         extra["aes_calls"] = AesCounter.calls
-        k, why = cc.check_post(args, pre, r, extra)
+        try:
+            k, why = cc.check_post(args, pre, r, extra)
+        except SpecError as ex:
+            return {"outcome": "error", "detail": f"contract text not evaluable: {ex}"}
         if k is None:
             return {"outcome": "ok"}
         return {"outcome": "violation", "kind": "postcondition", "clause": k, "clause_src": cc.ensures_src[k],
